@@ -75,24 +75,41 @@ def _sig_digits(numeral):
 
 
 def same_modulo_numeral_form(lib, ref):
-    """True when the two strings differ in one numeral only and both forms of it are legitimate readings of XPath 4.2 ("as many, but only as many,
+    """True when the two strings differ only in numerals of which both forms are legitimate readings of XPath 4.2 ("as many, but only as many,
     more digits as are needed to uniquely distinguish the number"): the reference writes the shortest digit string that reads back as the number
     (5.684341886080802e-14 for 2^-44), the library the shortest CORRECTLY ROUNDED decimal that does (5.6843418860808015e-14: the 16-digit
-    rounding ...801 does not read back).  Accepted only if the library's numeral reads back as the same double as the reference's, is the correctly
-    rounded decimal of that double at its own length, and no shorter correctly rounded decimal reads back as it."""
+    rounding ...801 does not read back).  A numeral of the library is accepted only if it reads back as the same double as the reference's, is
+    the correctly rounded decimal of that double at its own length (at most 17 digits), and no shorter correctly rounded decimal reads back as it.
+    The strings are walked together; at a difference the numeral around it is delimited on the left by trying every start inside the run of
+    numeral characters (digits of a neighbouring string may be glued to it) and on the right by the few digits in which the two forms can differ."""
     if lib == ref:
         return True
-    # the differing middle: strip the common suffix, then the common prefix, then widen the middle to the left over the numeral
-    k = 0
-    while k < len(lib) and k < len(ref) and lib[-1 - k] == ref[-1 - k]:
-        k += 1
-    a, b = lib[:len(lib) - k], ref[:len(ref) - k]
-    i = 0
-    while i < len(a) and i < len(b) and a[i] == b[i]:
-        i += 1
-    while i > 0 and a[i - 1] in _NUMCH:
-        i -= 1
-    na, nb = a[i:], b[i:]
+    i = j = 0
+    while i < len(lib) or j < len(ref):
+        if i < len(lib) and j < len(ref) and lib[i] == ref[j]:
+            i += 1
+            j += 1
+            continue
+        lo = i
+        while lo > 0 and lib[lo - 1] in _NUMCH:
+            lo -= 1
+        done = False
+        for s0 in range(lo, i + 1):
+            for da in (1, 2, 3):
+                for db in (0, 1, 2):
+                    if _numeral_forms_agree(lib[s0:i + da], ref[s0 - i + j:j + db]) and i + da <= len(lib) and j + db <= len(ref):
+                        i, j, done = i + da, j + db, True
+                        break
+                if done:
+                    break
+            if done:
+                break
+        if not done:
+            return False
+    return True
+
+
+def _numeral_forms_agree(na, nb):
     if not na or not nb or not set(na) <= _NUMCH or not set(nb) <= _NUMCH or na.count('.') > 1 or nb.count('.') > 1:
         return False
     try:
